@@ -398,6 +398,10 @@ static size_t ZSTD_seekable_loadSeekTable(ZSTD_seekable* zs)
 
     {   U32 const numFrames = MEM_readLE32(zs->inBuff);
         U32 const sizePerEntry = 8 + (checksumFlag?4:0);
+        if (numFrames > ZSTD_SEEKABLE_MAXFRAMES) {
+            /* the table size computations below are 32-bit */
+            return ERROR(corruption_detected);
+        }
         U32 const tableSize = sizePerEntry * numFrames;
         U32 const frameSize = tableSize + ZSTD_seekTableFooterSize + ZSTD_SKIPPABLEHEADERSIZE;
 
